@@ -55,6 +55,24 @@ def build_calls(quick):
         add("transpile", s, d, d if i % 2 == 0 else CORE_TARGETS[i % len(CORE_TARGETS)])
         if i % 4 == 0:
             add("parse_repr", s, d)
+    # statements that make generators run their rewriting transforms (fresh alias / column names, row-number wrappers, unnest
+    # rewrites, CTE column pushdown ...), into EVERY target dialect
+    probes = [("WITH RECURSIVE t AS (SELECT 1 UNION ALL SELECT a + 1 FROM t WHERE a < 3) SELECT * FROM t", "postgres"),
+              ("WITH RECURSIVE t AS (SELECT 1, (2 + 3) UNION ALL SELECT a + 1, a * 2 FROM t) SELECT * FROM t", "postgres"),
+              ("WITH t(x, y) AS (SELECT 1, 2) SELECT * FROM t", "postgres"),
+              ("SELECT a, b FROM t QUALIFY ROW_NUMBER() OVER (PARTITION BY a ORDER BY b) = 1", "duckdb"),
+              ("SELECT DISTINCT ON (a) a, b + 1 FROM t ORDER BY a, b", "postgres"),
+              ("SELECT EXPLODE(xs), POSEXPLODE(ys) FROM t", "spark"), ("SELECT * FROM t CROSS JOIN UNNEST(xs) AS u(x)", "presto"),
+              ("SELECT x FROM UNNEST([1, 2]) AS x", "bigquery"), ("SELECT * FROM t SEMI JOIN u ON t.a = u.a ANTI JOIN v ON t.a = v.a", "duckdb"),
+              ("SELECT a FROM t WHERE a = ANY(ARRAY[1, 2])", "postgres"), ("SELECT COUNT(DISTINCT a, b) FROM t", "mysql"),
+              ("SELECT GENERATE_SERIES(1, 3), GENERATE_SERIES(2, 4)", "postgres"), ("SELECT * FROM (VALUES (1, 2), (3, 4))", "postgres"),
+              ("SELECT a, SUM(b) FROM t GROUP BY ROLLUP (a)", "postgres"), ("SELECT * FROM t PIVOT(SUM(b) FOR a IN ('x', 'y'))", "snowflake"),
+              ("SELECT ARRAY_AGG(a ORDER BY b), ARRAY_AGG(c ORDER BY d) FROM t", "postgres"), ("SELECT 1 UNION ALL SELECT 2 ORDER BY 1 LIMIT 1", "tsql")]
+    from vlib import corpus as _c
+
+    for s_, r_ in probes:
+        for w_ in [""] + _c.all_dialects():
+            add("transpile", s_, r_, w_)
     # star expansion over set operations BY NAME (column sets with >= 3 members, every side / kind)
     for side in ("", "INNER ", "LEFT ", "FULL "):
         for op in ("UNION ALL", "UNION", "INTERSECT", "EXCEPT"):
@@ -136,7 +154,8 @@ def run(ctx: Ctx) -> None:
     for seed in range(0, S, 2 if quick else 1):
         cells.append((f"seed{seed}/reverse", seed, list(reversed(calls)) + wit))
     for seed in (0, 1, 5):
-        twice = [x for c in calls[::3] for x in (c, [c[0] + "#2"] + c[1:])]
+        # every call twice in a row (seed 0: all of them; two more seeds: every third)
+        twice = [x for c in (calls if seed == 0 else calls[::3]) for x in (c, [c[0] + "#2"] + c[1:])]
         cells.append((f"seed{seed}/twice", seed, twice))
     # all permutations of cross-dialect groups of 3 (cold import order effects), each in its own process
     groups = [[("SELECT a FROM t LIMIT 1", "", "hive"), ("SELECT a FROM t LIMIT 1", "", "spark"), ("SELECT a FROM t LIMIT 1", "", "databricks")],
@@ -262,7 +281,7 @@ def run(ctx: Ctx) -> None:
             "traces_validated_against_impl": compared,
             "evaluations": compared,
             "distinct_nontrivial": nontrivial,
-            "rule": f"matrix cells = {S} hash seeds x forward order, {S // (2 if quick else 1)} seeds x reverse order, 3 seeds x every-third-call-twice, all 6 permutations of 4 "
+            "rule": f"matrix cells = {S} hash seeds x forward order, {S // (2 if quick else 1)} seeds x reverse order, every call twice in a row (seed 0; every third call for 2 more seeds), all 6 permutations of 4 "
                     f"cross-dialect groups (each permutation in its own cold process), {len(alone)} calls alone in a fresh process, a cold and a warm (all other dialects "
                     f"loaded first) process per dialect running that dialect's own G_core statements, 2 reuse cells; "
                     f"{len(calls)} calls (transpile into 8 targets and from 12 source dialects, every" + (" second" if quick else "") + " statement of tests/dialects/*.py from its own dialect, tokenize, pretty, annotate, qualify, optimize on the "
